@@ -67,15 +67,21 @@ var (
 	reDecFixed  = regexp.MustCompile(`^if len\(data\) (<|<=) (\d+) \{ return unmarshalErr\(v, "", "missing data"\) \} ; \*v = (\w+)\(binary\.BigEndian\.Uint(16|32)\(data\)\) ; return nil$`)
 	reDecByte   = regexp.MustCompile(`^\*v = (\w+)\(data\[0\]\) ; return nil$`)
 	reDecBin = regexp.MustCompile(`^var (\w+) wuint16 ; _ = (\w+)\.UnmarshalBinary\(data\) ; if len\(data\) (<|<=) int\((\w+)\)\+(\d+) \{ return unmarshalErr\(v, "", "missing data"\) \} ; ` +
-		`if (\w+) == 0 \{ return nil \} ; \*v = make\(\[\]byte, (\w+)\) ; copy\(\*v, data\[(\d+):int\((\w+)\)\+(\d+)\]\) ; return nil$`)
-	reDecVb = regexp.MustCompile(`^if len\(data\) == 0 \{ return unmarshalErr\(v, "", "missing data"\) \} ; var (\w+) uint = 1 ; var (\w+) uint ; ` +
+		`if (\w+) (?:==|!=|<=|>=|<|>) 0 \{ return nil \} ; \*v = make\(\[\]byte, (\w+)\) ; copy\(\*v, data\[(\d+):int\((\w+)\)\+(\d+)\]\) ; return nil$`)
+	reDecVb = regexp.MustCompile(`^if len\(data\) (?:==|!=|<=|>=|<|>) 0 \{ return unmarshalErr\(v, "", "missing data"\) \} ; var (\w+) uint = 1 ; var (\w+) uint ; ` +
 		`for _, (\w+) := range data \{ (\w+) \+= uint\((\w+)\) & uint\((\d+)\) \* (\w+) if (\w+) (>|>=) ([\d\*]+) \{ return unmarshalErr\(v, "", "size exceeded"\) \} ` +
-		`if (\w+)&(\d+) == 0 \{ \*v = vbint\((\w+)\) return nil \} (\w+) = (\w+) \* (\d+) \} ; return unmarshalErr\(v, "", "missing data"\)$`)
+		`if (\w+)&(\d+) (?:==|!=|<=|>=|<|>) 0 \{ \*v = vbint\((\w+)\) return nil \} (\w+) = (\w+) \* (\d+) \} ; return unmarshalErr\(v, "", "missing data"\)$`)
 	reDecPair = regexp.MustCompile(`^var (\w+) wstring ; if err := (\w+)\.UnmarshalBinary\(data\); err != nil \{ return unmarshalErr\(v, "key", err\.\(\*Malformed\)\) \} ; v\[0\] = string\((\w+)\) ; ` +
 		`(\w+) := len\(v\[0\]\) \+ (\d+) ; var (\w+) wstring ; if err := (\w+)\.UnmarshalBinary\(data\[(\w+):\]\); err != nil \{ return unmarshalErr\(v, "value", err\.\(\*Malformed\)\) \} ; ` +
 		`v\[1\] = string\((\w+)\) ; return nil$`)
-	reFillVb = regexp.MustCompile(`^(\w+) := v ; (\w+) := i ; for \{ (\w+) := byte\((\w+) % (\d+)\) (\w+) = (\w+) / (\d+) if (\w+) > 0 \{ (\w+) = (\w+) \| (\d+) \} ` +
-		`if i < len\(data\) \{ data\[i\] = (\w+) \} i\+\+ if (\w+) == 0 \{ break \} \} ; return i - (\w+)$`)
+	reFillVb = regexp.MustCompile(`^(\w+) := v ; (\w+) := i ; for \{ (\w+) := byte\((\w+) % (\d+)\) (\w+) = (\w+) / (\d+) if (\w+) (?:==|!=|<=|>=|<|>) 0 \{ (\w+) = (\w+) \| (\d+) \} ` +
+		`if i (?:==|!=|<=|>=|<|>) len\(data\) \{ data\[i\] = (\w+) \} i\+\+ if (\w+) (?:==|!=|<=|>=|<|>) 0 \{ break \} \} ; return i - (\w+)$`)
+	// the comparison operators of the three tests inside the loop of vbint.fill (rendered as written)
+	reFillVbOps = regexp.MustCompile(`if \w+ (==|!=|<=|>=|<|>) 0 \{ \w+ = \w+ \| \d+ \} if i (==|!=|<=|>=|<|>) len\(data\) \{ data\[i\] = \w+ \} i\+\+ if \w+ (==|!=|<=|>=|<|>) 0 \{ break \}`)
+	// … of vbint.UnmarshalBinary: the empty-input test and the continuation-bit test
+	reDecVbOps = regexp.MustCompile(`^if len\(data\) (==|!=|<=|>=|<|>) 0 .* if \w+&\d+ (==|!=|<=|>=|<|>) 0 \{ \*v = `)
+	// … of bindata.UnmarshalBinary: the zero-length test
+	reDecBinOps = regexp.MustCompile(`\} ; if \w+ (==|!=|<=|>=|<|>) 0 \{ return nil \} ; `)
 	reDecBool   = regexp.MustCompile(`^switch data\[0\] \{ case 0: \*v = wbool\(false\) case 1: \*v = wbool\(true\) default: return fmt\.Errorf\("malformed bool"\) \} ; return nil$`)
 )
 
@@ -144,6 +150,7 @@ func wireGen() (string, []string) {
 		return tok
 	}
 	geq := map[string]string{">=": "≥", ">": ">"}
+	cmp := map[string]string{"==": "=", "!=": "≠", "<": "<", "<=": "≤", ">": ">", ">=": "≥"}
 	// ---- fill (bindata.fill calls wuint16.fill: fixed-size types first)
 	for _, n := range []string{"Ident", "bits", "wbool", "wuint16", "wuint32", "bindata", "rawdata"} {
 		t := tys[n]
@@ -246,11 +253,11 @@ func wireGen() (string, []string) {
 			binDef = fmt.Sprintf(`fun data =>
   let length : Nat := Mq.Gen.bindata.len data
   if data.length %s length + %s then .err .missing
-  else if length = 0 then .ok old (Mq.Gen.bindata.width old)                              -- the destination is left alone
+  else if length %s 0 then .ok old (Mq.Gen.bindata.width old)                              -- the destination is left alone
   else if length + %s > data.length then .panic                                            -- data[lo:hi] beyond the data
   else
     let v := copyAt (List.replicate length 0) 0 ((data.take (length + %s)).drop %s)        -- make + copy
-    .ok v (Mq.Gen.bindata.width v)`, lt[m[3]], m[5], m[10], m[10], m[8])
+    .ok v (Mq.Gen.bindata.width v)`, lt[m[3]], m[5], cmp[reDecBinOps.FindStringSubmatch(b)[1]], m[10], m[10], m[8])
 		} else {
 			bad = append(bad, "bindata.UnmarshalBinary: "+b)
 		}
@@ -271,12 +278,12 @@ def vbint.decLoop : Bytes → Nat → Nat → DecRes Nat
   | b :: rest, mult, acc =>
     let acc' := acc + (b.toNat &&& %s) * mult
     if mult %s %s then .err .sizeExceeded
-    else if b.toNat &&& %s = 0 then .ok acc' (Mq.Gen.vbint.width acc')
+    else if b.toNat &&& %s %s 0 then .ok acc' (Mq.Gen.vbint.width acc')
     else vbint.decLoop rest (mult * %s) acc'
 
-def vbint.dec : Dec Nat := fun data => if data.length = 0 then .err .missing else vbint.decLoop data 1 0
+def vbint.dec : Dec Nat := fun data => if data.length %s 0 then .err .missing else vbint.decLoop data 1 0
 
-`, m[6], geq[m[9]], m[10], m[12], m[16])
+`, m[6], geq[m[9]], m[10], m[12], cmp[reDecVbOps.FindStringSubmatch(b)[2]], m[16], cmp[reDecVbOps.FindStringSubmatch(b)[1]])
 		} else {
 			bad = append(bad, "vbint.UnmarshalBinary: "+b)
 		}
@@ -340,16 +347,16 @@ def vbint.dec : Dec Nat := fun data => if data.length = 0 then .err .missing els
 def vbint.fillAux : Nat → Nat → Bytes → Nat → Bytes × Nat
   | 0, x, b, i => (if i < b.length then b.set i (UInt8.ofNat x) else b, 1)
   | fuel + 1, x, b, i =>
-    let e := if x / %s > 0 then (x %% %s) ||| %s else x %% %s
-    let b' := if i < b.length then b.set i (UInt8.ofNat e) else b
-    if x / %s = 0 then (b', 1)
+    let e := if x / %s %s 0 then (x %% %s) ||| %s else x %% %s
+    let b' := if i %s b.length then b.set i (UInt8.ofNat e) else b
+    if x / %s %s 0 then (b', 1)
     else
       let r := vbint.fillAux fuel (x / %s) b' (i + 1)
       (r.1, r.2 + 1)
 
 def vbint.fill (v : Nat) : Filler := fun b i => vbint.fillAux v v b i
 
-`, m[8], m[5], m[12], m[5], m[8], m[8])
+`, m[8], cmp[reFillVbOps.FindStringSubmatch(b)[1]], m[5], m[12], m[5], cmp[reFillVbOps.FindStringSubmatch(b)[2]], m[8], cmp[reFillVbOps.FindStringSubmatch(b)[3]], m[8])
 		} else {
 			bad = append(bad, "vbint.fill: "+b)
 		}
